@@ -896,13 +896,20 @@ func main() {
 	// both tiers: the exhaustion scenario below holds long consecutive blocks, which hides
 	// allocators that look at a neighbouring slot (seeded change C01-A); this cell holds 50
 	// scattered queries across the wrap
-	wrapAround(70000, 50, rep.Seed)
 	// failed wire-ID assignments must not disturb the queries in flight (exhaust.go)
 	if rep.Thorough() {
+		wrapAround(70000, 50, rep.Seed)
 		idExhaustion(false, 2, true, rep.Seed)
 		idExhaustion(true, 1, false, rep.Seed+1)
 	} else {
+		// quick: the two cells are independent (own fake network, own connection, own
+		// adversary) and each is bound by the per-connection query rate under -race, so
+		// they run side by side
+		var wg sync.WaitGroup
+		wg.Add(1)
+		go func() { defer wg.Done(); wrapAround(70000, 50, rep.Seed) }()
 		idExhaustion(false, 1, false, rep.Seed)
+		wg.Wait()
 	}
 	runtime.GOMAXPROCS(16)
 	sched.NoPerturb()
